@@ -48,6 +48,8 @@ TABLE = {
     88: ("breadth_first_search", "plain", ()), 89: ("square_clustering(Some)", "plain", ()),
     90: ("get_all_shortest_paths_involving", "plain", ()), 91: ("get_all_shortest_paths_involving(weighted)", "plain", ()),
     92: ("get_node_by_index(0)", "opt", ()), 93: ("get_node_by_index(1000)", "opt", ()),
+    94: ("single_source(option sweep)", "res", ()), 95: ("multi_source(option sweep)", "res", ()),
+    96: ("all_pairs(option sweep)", "res", ()),
 }
 
 
@@ -111,12 +113,12 @@ class ApiProp(props.BaseProp):
     run_module = None
     harness_mode = "api"
     profiles = ["debug", "release"]
-    quick_n, thorough_n = 336, 3000
+    quick_n, thorough_n = 448, 3000
     rule = ("all 8 graph kinds (directed x multi-edge x self-loops) x 14 shapes (empty, one node, one node with a "
             "self-loop, edgeless, isolated node + component, path with degree-1 tails, star, triangle with a tail, "
             "parallel / antiparallel edges, two components, K4, self-loops on every node, cycle, random) x weights "
-            "{unweighted, 1..3, mixed}, names whose sort order differs from insertion order; on each graph every public "
-            "function of the crate (93 call shapes) is called with names of the graph and, for functions with a "
+            "{unweighted, 1..3, mixed, 0..2 with many zeros}, names whose sort order differs from insertion order; on each graph every public "
+            "function of the crate (96 call shapes incl. every option combination of the shortest-path entry points) is called with names of the graph and, for functions with a "
             "Result/Option channel, one absent name, in a debug AND a release build, each under a 4 s watchdog; "
             "non-trivial = the graph has at least one node; distinct = distinct case text")
     trusted_extra = ["C20 has no model diff of its own: the outcome classes of the algorithm families are compared with "
@@ -132,12 +134,13 @@ class ApiProp(props.BaseProp):
             kind = i % 8
             d, m, s = kind & 1, (kind >> 1) & 1, (kind >> 2) & 1
             shape = SHAPES[(i // 8) % len(SHAPES)]
-            wmode = ["nan", "real", "mixed"][(i // (8 * len(SHAPES))) % 3]
+            wmode = ["nan", "real", "mixed", "zero"][(i // (8 * len(SHAPES))) % 4]
             nn, es = shape_edges(r, shape, s, m)
             names = r.shuffle([3, 11, 5, 7, 2, 13, 1][:nn]) if nn <= 7 else list(range(nn))
             edges = []
             for (u, v) in es:
-                w = None if wmode == "nan" else (1 + r.below(3) if wmode == "real" else r.pick([None, 1, 2]))
+                w = None if wmode == "nan" else (1 + r.below(3) if wmode == "real" else
+                                                 (r.pick([0, 0, 1, 2]) if wmode == "zero" else r.pick([None, 1, 2])))
                 edges.append((names[u], names[v], w, None))
             spec = (d, m, s, 2 if not m else 0, 0, 1)
             cases.append({"id": "a%d" % i, "spec": spec, "nodes": [(x, None) for x in names], "edges": edges,
